@@ -140,6 +140,38 @@ fn strict_fallback_loss() -> bool {
     }
 }
 
+// F-C13-c  (C13)  one flipped bit inside a KEY of the MANIFEST JSON ("latest_snapshot" -> "latest_snapshou"): serde treats the
+//                 unknown key as ignorable and the missing Option field as None, so strict recovery starts WITHOUT the snapshot
+//                 and replays only the segments that survived compaction
+fn manifest_key_flip(key: &'static str) -> bool {
+    let dir = tempfile::tempdir().unwrap();
+    let b = HnswBackend::with_persistence(2, DistanceMetric::Euclidean, vec![], vec![], 100, dir.path(), FsyncPolicy::Always, 0, 64).unwrap();
+    for i in 1..=4u64 {
+        b.insert(i, vec![i as f32, 1.0], HashMap::new()).unwrap();
+    }
+    b.create_snapshot().unwrap();
+    b.insert(5, vec![5.0, 1.0], HashMap::new()).unwrap();
+    drop(b);
+    let mp = dir.path().join("MANIFEST");
+    let mut bytes = std::fs::read(&mp).unwrap();
+    let text = String::from_utf8(bytes.clone()).unwrap();
+    let needle = format!("\"{}\"", key);
+    let pos = text.find(&needle).expect("key present") + needle.len() - 2; // last character of the key
+    println!("  MANIFEST before: {}", text.replace('\n', " "));
+    bytes[pos] ^= 0x01;
+    std::fs::write(&mp, &bytes).unwrap();
+    println!("  MANIFEST after : {}", String::from_utf8_lossy(&bytes).replace('\n', " "));
+    match HnswBackend::recover(2, DistanceMetric::Euclidean, dir.path(), 100, FsyncPolicy::Always, 0, 64, MetricsCollector::new()) {
+        Ok(r) => {
+            let mut v = r.scan(|_| true);
+            v.sort();
+            println!("  STRICT RECOVERY SUCCEEDED with docs {:?} (expected [1, 2, 3, 4, 5])", v);
+            v != vec![1, 2, 3, 4, 5]
+        }
+        Err(e) => { println!("  recovery refused: {e:#}"); false }
+    }
+}
+
 // F-C13-b  (C13)  truncation inside a frame of a rotated (non-final) segment is read as a torn tail
 //   live=[1, 2, 3, 4, 5, 6] segments=3
 //   STRICT RECOVERY SUCCEEDED with docs [1, 2, 4, 5, 6]
@@ -731,6 +763,89 @@ fn search_hits_depend_on_other_tenant() -> bool {
     h1 == 1 && (h2 < warranted || h3 < warranted)
 }
 
+// F-C13-d  (C13)  the MANIFEST is removed after a clean stop: the real server finds "no MANIFEST", takes the directory for a new one and
+//                 starts an EMPTY database next to the old WAL segments and snapshots (HnswBackend::recover itself refuses: "No MANIFEST found")
+fn c13_spawn_server(bin: &std::path::Path, data_dir: &std::path::Path, log: &std::path::Path, port: u16, http_port: u16) -> KillOnDrop {
+    let log = std::fs::OpenOptions::new().create(true).append(true).open(log).unwrap();
+    let child = std::process::Command::new(bin)
+        .env("KYRODB_DATA_DIR", data_dir)
+        .env("KYRODB_PORT", port.to_string())
+        .env("KYRODB__SERVER__HTTP_PORT", http_port.to_string())
+        .env("KYRODB__HNSW__DIMENSION", "8")
+        .env("KYRODB__HNSW__MAX_ELEMENTS", "1000")
+        .stdout(std::process::Stdio::null())
+        .stderr(log)
+        .spawn()
+        .unwrap_or_else(|e| panic!("cannot spawn {}: {e}", bin.display()));
+    KillOnDrop(child)
+}
+fn manifest_removed_server_starts_empty() -> bool {
+    use kyrodb_engine::proto::kyro_db_service_client::KyroDbServiceClient;
+    use kyrodb_engine::proto::{InsertRequest, QueryRequest};
+    use std::time::{Duration, Instant};
+    let bin = c10_server_binary();
+    let tmp = tempfile::tempdir().unwrap();
+    let data_dir = tmp.path().join("data");
+    std::fs::create_dir_all(&data_dir).unwrap();
+    let logp = tmp.path().join("server.log");
+    let rt = tokio::runtime::Builder::new_multi_thread().worker_threads(2).enable_all().build().unwrap();
+    // returns Some(client) when the server answers, None when the process exited (= refused to start)
+    async fn connect(server: &mut KillOnDrop, endpoint: String) -> Option<kyrodb_engine::proto::kyro_db_service_client::KyroDbServiceClient<tonic::transport::Channel>> {
+        let deadline = Instant::now() + Duration::from_secs(60);
+        loop {
+            match KyroDbServiceClient::connect(endpoint.clone()).await {
+                Ok(c) => return Some(c),
+                Err(e) => {
+                    if let Ok(Some(_)) = server.0.try_wait() { return None; }
+                    assert!(Instant::now() < deadline, "server did not come up: {e}");
+                    tokio::time::sleep(Duration::from_millis(100)).await;
+                }
+            }
+        }
+    }
+    // run 1: three acknowledged documents, then a clean stop (SIGTERM)
+    let (port, http_port) = (c10_port(), c10_port());
+    let mut server = c13_spawn_server(&bin, &data_dir, &logp, port, http_port);
+    let ok1 = rt.block_on(async {
+        let mut client = connect(&mut server, format!("http://127.0.0.1:{port}")).await.expect("first start");
+        for i in 1..=3u64 {
+            let r = client.insert(tonic::Request::new(InsertRequest { doc_id: i, embedding: c10_vec(i as f32, 1.0), metadata: HashMap::new(), namespace: String::new() })).await.expect("insert rpc");
+            assert!(r.get_ref().success, "insert failed: {}", r.get_ref().error);
+        }
+        client.query(tonic::Request::new(QueryRequest { doc_id: 1, include_embedding: false, namespace: String::new() })).await.expect("query rpc").get_ref().found
+    });
+    unsafe { libc::kill(server.0.id() as i32, libc::SIGTERM); }
+    let t0 = Instant::now();
+    while server.0.try_wait().ok().flatten().is_none() && t0.elapsed() < Duration::from_secs(20) { std::thread::sleep(Duration::from_millis(50)); }
+    drop(server);
+    let mut names: Vec<String> = std::fs::read_dir(&data_dir).unwrap().map(|e| e.unwrap().file_name().to_string_lossy().to_string()).collect();
+    names.sort();
+    println!("  run 1: Insert(1..=3) acknowledged, Query(1) found={ok1}; data dir after stop: {names:?}");
+    // the single fault: the MANIFEST is removed
+    std::fs::remove_file(data_dir.join("MANIFEST")).unwrap();
+    println!("  fault: MANIFEST removed");
+    // run 2
+    let (port, http_port) = (c10_port(), c10_port());
+    let mut server = c13_spawn_server(&bin, &data_dir, &logp, port, http_port);
+    let verdict = rt.block_on(async {
+        match connect(&mut server, format!("http://127.0.0.1:{port}")).await {
+            None => { println!("  run 2: the server refused to start"); false }
+            Some(mut client) => {
+                let mut found = vec![];
+                for i in 1..=3u64 {
+                    if client.query(tonic::Request::new(QueryRequest { doc_id: i, include_embedding: false, namespace: String::new() })).await.expect("query rpc").get_ref().found { found.push(i); }
+                }
+                println!("  run 2: the server STARTED; Query(1..=3) finds {found:?} (expected [1, 2, 3])");
+                found != vec![1, 2, 3]
+            }
+        }
+    });
+    drop(rt);
+    let _ = server.0.kill();
+    let _ = server.0.wait();
+    ok1 && verdict
+}
+
 fn main() {
     let which = std::env::args().nth(1).unwrap_or_else(|| "all".to_string());
     if which == "F-C01-a-child" {
@@ -759,6 +874,9 @@ fn main() {
         ("F-C11-a", Box::new(filtered_delete_stale_hot)),
         ("F-C13-a", Box::new(strict_fallback_loss)),
         ("F-C13-b", Box::new(truncated_older_segment)),
+        ("F-C13-d", Box::new(manifest_removed_server_starts_empty)),
+        ("F-C13-c.snapshot", Box::new(|| manifest_key_flip("latest_snapshot"))),
+        ("F-C13-c.segments", Box::new(|| manifest_key_flip("wal_segments"))),
         ("F-C04-a", Box::new(drain_resurrects)),
         ("F-C07-a", Box::new(query_cache_key_collision)),
         ("F-C07-b", Box::new(similarity_ignores_metric)),
